@@ -1115,6 +1115,28 @@ fn builtin_upper() -> Vec<Scenario> {
         vec![g(6, 0, Some(0))],
         vec![vec![g(0, 0, Some(0)), g(0, 0, Some(0))], vec![g(0, 0, Some(0)), g(6, 0, Some(0))]],
     );
+    // three trees; the prologue fills all rows but the last one of the tree X reserved by slot 0 (start row = the full row
+    // before the last, 64 frames left): the order-0 get lands in the last row and moves the start row (set_start) while the
+    // order-7 get through the SAME slot cannot be satisfied (nothing to sync), reserves another tree Y, swaps the slot and
+    // unreserves X: set_start must then leave Y's reservation alone
+    let fillx = || -> Vec<CallSpec> { (6..to).rev().map(|o| g(o, 0, Some(0))).collect() };
+    add(
+        "u-setstart-vs-reserve",
+        s1(),
+        false,
+        3,
+        fillx(),
+        vec![vec![g(0, 0, Some(0))], vec![g(7, 0, Some(0))]],
+    );
+    // ... followed by frees into X and gets through the slot
+    add(
+        "u-setstart-vs-reserve-put",
+        s1(),
+        false,
+        3,
+        fillx(),
+        vec![vec![g(0, 0, Some(0)), pp(to - 9, 0, 8, 0, Some(0)), pp(to - 8, 0, 7, 0, Some(0))], vec![g(7, 0, Some(0)), g(0, 0, Some(0))]],
+    );
     // a class change / an offline with matcher free = 0 still matches after a concurrent get or put changed the counter: the
     // change's compare-exchange fails once and has to be retried with the refreshed value
     add(
